@@ -73,7 +73,7 @@ class ThreadStage:
                 g = got[t][:len(s)] if t < len(got) else []
                 sc = Script([pre] + s)
                 _, lo, _ = core.run_driver(lean_exe, sc.ops)
-                r = core.compare_outputs([sc], ["ok"] + [c03.normalize(op, o) for op, o in zip(s, g)], lo, self.impl + "-threads")
+                r = core.compare_outputs([sc], ["ok"] + [norm_all(op, o) for op, o in zip(s, g)], lo, self.impl + "-threads")
                 if r and len(mism) < 5:
                     m = r[0]
                     mism.append(dict(kind=m.kind, impl_name=m.impl_name, ops=sc.ops, failing_op_index=m.index, impl_output=m.impl[:500],
@@ -141,4 +141,4 @@ def stages(tier, seed, witness_search=False):
 def replay(d, lean_exe):
     from ..stage import replay_line
     impl = "c" if d.get("impl_name", "").startswith("c") else "rs"
-    return replay_line(d, lean_exe, impl=impl, normalize=c03.normalize)
+    return replay_line(d, lean_exe, impl=impl, normalize=norm_all)
